@@ -179,7 +179,13 @@ impl HCtx {
             ("absent".into(), None)
         } else {
             let (form, spec) = cid.split_once('=').unwrap();
-            let u = if spec == "fresh" { Uuid::new_v4() } else { self.l1.client(spec.parse().unwrap()) };
+            let u = if spec == "fresh" {
+                // a client the server has never seen; registered so that later dumps cover it
+                let k = 1000 + self.l1.clients.len() as u32;
+                self.l1.client(k)
+            } else {
+                self.l1.client(spec.parse().unwrap())
+            };
             let class = if id_form_ok(form) {
                 self.l1.canon.id(u).to_string()
             } else if form == "nontext" {
